@@ -31,7 +31,7 @@ def gen_case(rng):
     minutes = rng.choice([5, 10, 15, 15, 30, 60])
     cc = rng.choice(CC)
     scale = rng.choice([0.05, 1, 10, 100, 1000, 3000])
-    kind = rng.choice(["flat", "peaky", "rand", "zero", "boundary"])
+    kind = rng.choice(["flat", "peaky", "rand", "zero", "boundary", "exact"])
     if kind == "flat":
         sup = [-scale] * n
     elif kind == "peaky":
@@ -48,9 +48,21 @@ def gen_case(rng):
             avg = peak * 2500 / 8760 * rng.choice([1, 0.99, 1.01])
             rest = (avg * n - peak) / max(n - 1, 1)
             sup = [-peak] + [-rest] * (n - 1)
+    elif kind == "exact":
+        # exactly ON a bracket boundary, in the arithmetic the code uses (float year fraction, exact rationals otherwise)
+        fy = F(n * datetime.timedelta(minutes=minutes) / datetime.timedelta(days=365))
+        hrs = F(minutes, 60)
+        if rng.random() < 0.5:
+            p = F(100000) * fy / (n * hrs) + rng.choice([0, 0, F(1, 10**9), -F(1, 10**9)])       # energy per year == 100 000 kWh
+            sup = [-p] * n
+        else:
+            peak = F(rng.choice([200, 50]))                                                  # utilisation == 2500 h/a
+            e_sim = 2500 * peak * fy + rng.choice([0, 0, F(1, 10**6), -F(1, 10**6)])
+            rest = (e_sim / hrs - peak) / (n - 1)
+            sup = [-peak] + [-rest] * (n - 1)
     else:
         sup = [-round(rng.uniform(0, scale), 3) for _ in range(n)]
-    if rng.random() < 0.3:
+    if rng.random() < 0.3 and kind != "exact":
         sup = [s if rng.random() < 0.8 else abs(s) + 1 for s in sup]       # some feed-in steps
     fixl = [round(rng.uniform(0, scale * 0.6), 3) if rng.random() < 0.8 else -1 for _ in range(n)] if rng.random() < 0.7 else [0] * n
     def opt(f):
@@ -207,10 +219,11 @@ class CostUnit(corr.Unit):
             pc = pl
         inp = ("{| i_cc := %s; i_fee := %s; i_secs := %s; i_tsh := %s; i_fy := %s; i_n := %d%%nat; i_supply := %s; "
                "i_prices_commodity := %s; i_prices_procurement := %s; i_fix := %s; i_gen := %s; i_v2g := %s; i_bat := %s; "
-               "i_window := %s; i_schedule := %s; i_pv_nominal := %s |}") % (
+               "i_window := %s; i_schedule := %s; i_pv_nominal := %s; i_vat := %s; i_add_sim := %s |}") % (
             CCQ[CC.index(case["cc"])], "None" if case["fee"] is None else "(Some %s)" % case["fee"], q(secs), q(secs / 3600), q(fy), case["n"],
             ql(case["supply"]), oql(pc), oql(pp), ql(case["fix"]), oql(case["gen"]), oql(case["v2g"]), oql(case["bat"]),
-            "None" if case["window"] is None else "(Some %s)" % C.lst(C.b(x) for x in case["window"]), oql(case["schedule"]), q(case["pv"]))
+            "None" if case["window"] is None else "(Some %s)" % C.lst(C.b(x) for x in case["window"]), oql(case["schedule"]), q(case["pv"]),
+            q(sh["taxes"]["value_added_tax"] / 100), q(rlm["additional_costs"]["costs"] * fy))
         if "err" in out:
             exp = "Err %s" % out["err"]
         else:
